@@ -3,10 +3,11 @@ EXTENDS Ext
 Pr(lead, w) == [w |-> w, lead |-> lead]
 MnP == {"ld", "ldx", "ld.b", "mov"}
 MaP == {"push2", "ldm"}
-ReP == {"a", "ab", "sp"}
+\* ah and b1 are registers that, as text, also look like numbers (AH is a hexadecimal literal with an H suffix, b1 a binary literal)
+ReP == {"a", "ab", "sp", "ah", "b1"}
 PrP == {"PCON", "buf"}
 Words == {"ld", "ldx", "ld.b", "mov", "push2", "ldm", "a", "ab", "sp", "PCON", "buf",
-          "LD", "Ld.B", "Mov", "MOV", "A", "SP", "Push2", "LDM",
+          "LD", "Ld.B", "Mov", "MOV", "A", "SP", "Push2", "LDM", "ah", "AH", "b1", "B1", "b10", "ahh",
           "l", "ldxb", "ldxx", "ldb", "movx", "xmov", "abc", "s", "sp2", "push", "push22", "PCONX", "bu", "buffer", "pcon", "nothing", "x_1",
           "org", "byte", "fill", "define", "include"}
 DotWords == {"org", "memzone", "align", "fill", "zero", "zerountil", "byte", "2byte", "4byte", "8byte", "cstr", "asciiz",
